@@ -156,7 +156,7 @@ func memfsConflict(x, y *memfs.Call) bool {
 
 func runMatrix(c *ev.Ctx, prop string) {
 	cells := matrixCells(c.Thorough())
-	reps := c.Sz(1, 25)
+	reps := c.Sz(3, 30)
 	for rep := 0; rep < reps; rep++ {
 		for i, cell := range cells {
 			if !c.Mine(i + rep) {
@@ -173,22 +173,40 @@ func runMatrix(c *ev.Ctx, prop string) {
 				w.close()
 				continue
 			}
-			out, ok := rendezvous(c, w, cell.a, cell.ta, cell.b, cell.tb, cell.rel)
+			// every third pass gives A's fid a history: its entry was moved
+			// into another directory after the fid was bound
+			hist := ""
+			switch (i + rep) % 3 {
+			case 1:
+				hist = "moved"
+			case 2:
+				if c.Thorough() || i%2 == 0 {
+					hist = "moved-both"
+				}
+			}
+			if cell.ta.path == "/" {
+				hist = ""
+			}
+			out, ok := rendezvousAfter(c, w, cell.a, cell.ta, cell.b, cell.tb, cell.rel, hist)
+			relKey := cell.rel
+			if hist != "" {
+				relKey += "+" + hist
+			}
 			if !out.parkedA {
-				c.Case(fmt.Sprintf("%s|%s|%s|not-parked", cell.a.name, cell.b.name, cell.rel), false)
+				c.Case(fmt.Sprintf("%s|%s|%s|not-parked", cell.a.name, cell.b.name, relKey), false)
 				w.close()
 				continue
 			}
-			key := fmt.Sprintf("%s@%s|%s@%s|%s|%s", cell.a.name, cell.ta.path, cell.b.name, cell.tb.path, cell.rel, out.bOutcome)
+			key := fmt.Sprintf("%s@%s|%s@%s|%s|%s", cell.a.name, cell.ta.path, cell.b.name, cell.tb.path, relKey, out.bOutcome)
 			c.Case(key, out.bOutcome != "answered" && out.bOutcome != "inconclusive")
 			c.Count("rendezvous_established", 1)
 			c.Count("B_"+out.bOutcome, 1)
-			c.SetAdd("outcome_signatures", fmt.Sprintf("%s|%s|%s|%s", cell.a.name, cell.b.name, cell.rel, out.bOutcome))
+			c.SetAdd("outcome_signatures", fmt.Sprintf("%s|%s|%s|%s", cell.a.name, cell.b.name, relKey, out.bOutcome))
 			if out.bOutcome == "inconclusive" {
 				c.Inconclusive("rendezvous: neither entered, answered nor parked: " + desc)
 			}
 			conflict := contractConflict(cell.a, cell.ta, cell.b, cell.tb)
-			det := map[string]any{"A": cell.a.name + "@" + cell.ta.path, "B": cell.b.name + "@" + cell.tb.path, "relation": cell.rel, "B_outcome": out.bOutcome, "A_parked_in": out.aCall.String()}
+			det := map[string]any{"A": cell.a.name + "@" + cell.ta.path, "B": cell.b.name + "@" + cell.tb.path, "relation": relKey, "B_outcome": out.bOutcome, "A_parked_in": out.aCall.String()}
 			switch prop {
 			case "C07":
 				for _, o := range out.overlaps {
@@ -196,11 +214,11 @@ func runMatrix(c *ev.Ctx, prop string) {
 					for k, v := range det {
 						d[k] = v
 					}
-					c.Violation(fmt.Sprintf("C07:overlap:%s(%s)x%s(%s):%s", cell.a.name, o.A, cell.b.name, o.B, cell.rel), d)
+					c.Violation(fmt.Sprintf("C07:overlap:%s(%s)x%s(%s):%s", cell.a.name, o.A, cell.b.name, o.B, relKey), d)
 				}
 				for _, l := range out.lifecycle {
 					if len(l) > 6 && l[:6] == "opened" {
-						c.Violation("C07:Open-invoked-twice-on-one-File:"+cell.a.name+"x"+cell.b.name+":"+cell.rel, det)
+						c.Violation("C07:Open-invoked-twice-on-one-File:"+cell.a.name+"x"+cell.b.name+":"+relKey, det)
 					}
 				}
 				if conflict && out.bOutcome == "blocked" {
@@ -232,9 +250,9 @@ func runMatrix(c *ev.Ctx, prop string) {
 				}
 				if mustNot && out.bOutcome == "blocked" {
 					det["p9_stacks"] = quiesce.P9Stacks(out.bDump)
-					rel := cell.rel
+					rel := relKey
 					if cell.rel == "other-conn" {
-						rel = "other-connection"
+						rel = "other-connection" + relKey[len(cell.rel):]
 					}
 					c.Violation(fmt.Sprintf("C06:head-of-line-blocking:%s-parked-delays-%s:%s:%s", cell.a.name, cell.b.name, why, rel), det)
 				}
